@@ -637,7 +637,7 @@ fn main() {
         property: "C19",
         classes: CLASSES,
         required: &["conv_accept", "conv_reject", "alias_reject", "parse_accept", "parse_reject", "set_op", "iter_seq", "iter_wrap", "iter_mixed_ends"],
-        rule: "all 7 weekdays / 12 months (cycles, numbering, distance, names, order); TryFrom<u8> on all 256 values and every FromPrimitive integer method on the integer lattice plus alias classes k*2^8/16/24/31/32/48/63+v; FromStr on every case variant of every name, every 1-edit mutant, every prefix and every string of length <= 3 (4 thorough) over the name letters; all 128 sets x 7 days and all 128^2 pairs for every set operation; collection from every sequence of weekdays of length <= 9 (10 thorough); iterator state machine: all 128 x 7 initial states x every next/next_back sequence until two consecutive None, against a deque; non-trivial = rejected value/string, wrapping iteration, mixed-end sequence",
+        rule: "all 7 weekdays / 12 months (cycles, numbering, distance, names, order); TryFrom<u8> on all 256 values and every FromPrimitive integer method on the integer lattice plus alias classes k*2^8/16/24/31/32/48/63+v; FromStr on every case variant of every name, every 1-edit mutant, every prefix, every non-ASCII character whose Unicode case mapping contains an ASCII letter in place of every one and every two characters of every name, and every string of length <= 3 (4 thorough) over the name letters; all 128 sets x 7 days and all 128^2 pairs for every set operation; collection from every sequence of weekdays of length <= 9 (10 thorough) and from 2^8 / 2^16 +- 1 repeats followed by a new day; from_array on every array of 1..=9 weekdays and on arrays of 300; iterator state machine: all 128 x 7 initial states x every next/next_back sequence until two consecutive None, against a deque; non-trivial = rejected value/string, wrapping iteration, mixed-end sequence",
         assumptions: &["float FromPrimitive conversions are not judged (fractional inputs are not 'numbers of a weekday')", "strings longer than the edit/length bounds are not enumerated"],
     };
     let only = replay_unit(&args);
